@@ -94,7 +94,7 @@ class C04(World):
 
     def swarm(self, rng):
         kind = rng.choice(KINDS)
-        return {"kind": kind, "weights": swarm_weights(rng, OPS, keep_p=0.7, always=("apply_transform",)), "n_ops": rng.choice([1, 1, 2, 3, 4]),
+        return {"kind": kind, "weights": swarm_weights(rng, OPS, keep_p=0.7, always=("apply_transform",)), "n_ops": rng.choice([1, 1, 2, 3, 4] if self.TIER != "thorough" else [2, 3, 4, 6, 9]),
                 "prereads": sorted(rng.sample(PREREADS, rng.randint(0, 5)))}
 
     def _recipe(self, rng, kind):
